@@ -117,6 +117,12 @@ class BaseSDESolver(metaclass=better_abc.ABCMeta):
         for out_t in ts[1:]:
             while curr_t < out_t:
                 next_t = min(curr_t + step_size, ts[-1])
+                if not next_t > curr_t:
+                    # (We know curr_t < ts[-1] here.) The step size is below the resolution of the times, so the clock
+                    # would never advance -- typically float32 `ts` far from zero.
+                    raise ValueError(f"Step size {float(step_size):.3e} is too small to advance the time {float(curr_t)} "
+                                     f"in its floating point precision ({ts.dtype}); use a larger step size or `ts` of "
+                                     f"a higher precision.")
                 if ts[-1] - next_t < 1e-3 * step_size:
                     # The grid is accumulated in floating point: a remainder of rounding-error size is not a step of
                     # its own. (A near-zero-length step is not the identity for reversible solvers, and the reversed
